@@ -28,6 +28,7 @@ def plan(tier):
                    bin_types=['i16,i16,i16,i16', 'i32,i32,i32,i32', 'i64,i64,i64,i64', 'i8,i8,i32,i32', 'i32,i32,i64,i64',
                               'i16,i64,i32,i8', 'i64,i32,i8,i16'],
                    single_types=['i8,i8', 'i16,i16', 'i32,i32', 'i64,i64', 'i8,i16', 'i32,i8', 'i16,i64', 'i64,i32'],
+                   canon_types_reduce_canonical_hash_only=['u8', 'u16', 'u32', 'u64', 'i128'],
                    component_width_max=64),
         assumptions=[
             '"cross products fit" is taken relative to the built-in type each product/sum is formed in by operators.h '
